@@ -32,7 +32,8 @@
          function f that PANICS on the poisoned rows and returns an error on the error rows. Judged by chk_C09_sql when
          no cut batch holds a poisoned row, else by chk_C09_lossy_sql (every result exactly one N-block of its tuple,
          in order, none twice, none merged or cut: no row of a failed batch may reach another batch's result); then
-         results = cw_run's batches without those that hold a poisoned row, and s = <form> over the result's own rows
+         results = the model of the consumer (Model/CountingFail.v fc_run on cw_run's batches: a batch that holds a
+         poisoned row is lost as a whole and leaves nothing in the aggregator), and s = <form> over the result's own rows
          (sum | sum1 = sum(f(v) + 1) | max; error rows are skipped by that field only). *)
 open Model
 open Util
@@ -197,9 +198,11 @@ let handle (toks : string list) : string =
            let res = C04.parse_results ncols true obs in
            if List.length sums <> List.length res then "bad line" else
            let ids rs = List.map (fun r -> r.krid) rs in
-           let cut = List.map (fun (_, rs) -> ids rs) (cw_run (nat_of_int n) rows) in
+           let cutp = cw_run (nat_of_int n) rows in
+           let cut = List.map (fun (_, rs) -> ids rs) cutp in
            let failed b = List.exists (fun i -> List.mem i pois) b in
-           let model = List.filter (fun b -> not (failed b)) cut in
+           (* the model of the consumer (Model/CountingFail.v): one aggregator across batches, Reset on both exits *)
+           let model = List.map (fun (_, rs) -> ids rs) (fc_run (fun r -> List.mem r.krid pois) cutp).fc_out in
            let lost = List.length cut - List.length model in
            let impl = List.map (fun g -> g.g_ids) res in
            let chk = if lost = 0 then chk_C09_sql (nat_of_int n) rows res else chk_C09_lossy_sql (nat_of_int n) rows res in
